@@ -1,4 +1,5 @@
 import Driver.Parse
+import FV.C04Layout
 /-! Model side of the byte-level suite (`B` lines). -/
 open FV
 namespace Drv
@@ -15,6 +16,32 @@ def probe (t : Ty) (s : Slice) : Res ProbeOk :=
   (t.dict.viewLen s.len).bind fun v =>
   (t.dict.size s).bind fun z =>
   (t.walk s).bind fun w => .ok ⟨v, z, w, stripCaps w⟩
+
+/-- offsets of the top-level fields (of the active variant) as the model lays them out: the C offsets -/
+def fieldOffsets (t : Ty) (s : Slice) : Option (List Nat) :=
+  match t with
+  | .sstruct fs => some (posList (dictL fs) 0)
+  | .ustruct fs last => some (posList (dictL fs ++ [last.dict]) 0)
+  | .cenum _ _ => some []
+  | .senum tag vs =>
+    let dvs := dictLL vs
+    let al := max tag.align (alignLL dvs)
+    match tag.readU s with
+    | .ok i => some ((posList (dvs.getD i []) 0).map (· + ceilMul tag.size al))
+    | _ => none
+  | .uenum tag vs =>
+    let dvs := dictLL vs
+    let al := max tag.align (alignLL dvs)
+    match tag.readU s with
+    | .ok i => some ((posList (dvs.getD i []) 0).map (· + ceilMul tag.size al))
+    | _ => none
+  | _ => none
+
+def offStr (t : Ty) (s : Slice) : String :=
+  match fieldOffsets t s with
+  | none => ""
+  | some [] => " off=-"
+  | some xs => " off=" ++ ",".intercalate (xs.map toString)
 
 def pfxChar (t : Ty) (s : Slice) (k : Nat) (wc : String) : Char :=
   match probe t (s.take k) with
@@ -50,5 +77,5 @@ def runB (t : Ty) (addr : Nat) (pfx : Bool) (sfx : Option Bytes) (bs : Bytes) : 
           | .ok q => if q.z == p.z && q.wc == p.wc then "same" else "diff"
           | .err _ => "err" | .fault _ => "panic"
         else "oob")
-    s!"ok v={p.v} s={p.v} z={p.z} in=1 rv={rv} rm={rm}{pf}{ex} w={p.w}"
+    s!"ok v={p.v} s={p.v} z={p.z} in=1{offStr t s} rv={rv} rm={rm}{pf}{ex} w={p.w}"
 end Drv
